@@ -1,2 +1,3 @@
 import SqLemmas.DecLemmas
 import SqLemmas.LexLemmas
+import SqLemmas.MachineLemmas
